@@ -60,7 +60,10 @@ class _EvalProp:
                 ses.emit("fail", cell, exc=type(e).__name__)
                 raise
             ses._stack.pop()
-            ses.emit("end", cell, tag=ses.tag(v))
+            if ses.value_fn is not None:
+                ses.emit("end", cell, tag=ses.tag(v), v=ses.value_fn(v))
+            else:
+                ses.emit("end", cell, tag=ses.tag(v))
             return v
 
         return wrapped
@@ -123,6 +126,7 @@ class Session:
         self._count = 0
         self._stack = []
         self.unwinding = False
+        self.value_fn = None
 
     # -- registry ----------------------------------------------------------
     def register(self, series):
